@@ -136,6 +136,10 @@ func tagCycleParser(doc *Parser, start *Token, arguments *Parser) (INodeTag, *Er
 		return nil, arguments.Error("Malformed cycle-tag.", nil)
 	}
 
+	if len(cycleNode.args) == 0 {
+		return nil, arguments.Error("Tag 'cycle' requires at least one argument.", nil)
+	}
+
 	return cycleNode, nil
 }
 
